@@ -159,6 +159,8 @@ impl<'a> Lexer<'a> {
     }
 
     fn next_token(&mut self) -> Option<(SyntaxKind, String)> {
+        #[cfg(feature = "verif-hooks")]
+        deb822_lossless::verif::step();
         if let Some(&c) = self.input.peek() {
             match c {
                 ':' => {
